@@ -2,6 +2,7 @@ package sim
 
 import (
 	"bytes"
+	"crypto/ecdsa"
 	"fmt"
 
 	cose "github.com/veraison/go-cose"
@@ -28,6 +29,22 @@ func hexShort(b []byte) string {
 // signerFor returns the built-in signer of a key, optionally obtained through
 // the key directory (Go key -> COSE_Key -> bytes -> COSE_Key -> Signer()).
 func (r *Run) signerFor(k *KeyPair, viaDirectory bool) cose.Signer {
+	// one long-lived Signer object per key and run, as an issuer would keep
+	// it: whatever a signer returns must stay valid when it signs again
+	ck := fmt.Sprintf("%s/%v", k.Name, viaDirectory)
+	if s, ok := r.signers[ck]; ok {
+		r.Probe("signer-object-reused")
+		return s
+	}
+	s := r.newSigner(k, viaDirectory)
+	if r.signers == nil {
+		r.signers = map[string]cose.Signer{}
+	}
+	r.signers[ck] = s
+	return s
+}
+
+func (r *Run) newSigner(k *KeyPair, viaDirectory bool) cose.Signer {
 	if viaDirectory && directoryEligible(k) {
 		var s cose.Signer
 		var err error
@@ -57,7 +74,14 @@ func (r *Run) signerFor(k *KeyPair, viaDirectory bool) cose.Signer {
 	}
 	var s cose.Signer
 	var err error
-	r.Lib(func() { s, err = libSigner(k) })
+	if priv, isEC := k.Priv.(*ecdsa.PrivateKey); isEC && r.T.Bool(1, 3, "signer.opaque") {
+		// the key lives behind an opaque crypto.Signer (HSM / KMS): go-cose
+		// then takes its ASN.1 path
+		r.Lib(func() { s, err = cose.NewSigner(cose.Algorithm(k.Alg), &HSM{Key: priv}) })
+		r.Probe("signer-behind-crypto.Signer")
+	} else {
+		r.Lib(func() { s, err = libSigner(k) })
+	}
 	if err != nil {
 		panic(fmt.Sprintf("harness: NewSigner(%d, %s) failed: %v", k.Alg, k.Name, err))
 	}
@@ -192,6 +216,32 @@ func (r *Run) Decode(kind refcose.Kind, b []byte) (*Received, error) {
 		rc.M1 = (*cose.Sign1Message)(u)
 	default:
 		panic("Decode: bad kind")
+	}
+	if err != nil {
+		return nil, err
+	}
+	return rc, nil
+}
+
+// DecodeReusing decodes `earlier` and then `b` into the same destination
+// variable (a server recycling its structs) and returns the outcome of the
+// second decode.
+func (r *Run) DecodeReusing(kind refcose.Kind, earlier, b []byte) (*Received, error) {
+	rc := &Received{Kind: kind}
+	var err error
+	switch kind {
+	case refcose.KSignTagged:
+		rc.MS = new(cose.SignMessage)
+		r.Lib(func() { rc.MS.UnmarshalCBOR(earlier); err = rc.MS.UnmarshalCBOR(b) })
+	case refcose.KSign1Tagged:
+		rc.M1 = new(cose.Sign1Message)
+		r.Lib(func() { rc.M1.UnmarshalCBOR(earlier); err = rc.M1.UnmarshalCBOR(b) })
+	case refcose.KSign1Untagged:
+		u := new(cose.UntaggedSign1Message)
+		r.Lib(func() { u.UnmarshalCBOR(earlier); err = u.UnmarshalCBOR(b) })
+		rc.M1 = (*cose.Sign1Message)(u)
+	default:
+		panic("DecodeReusing: bad kind")
 	}
 	if err != nil {
 		return nil, err
